@@ -28,6 +28,7 @@ it may only be used as `self.<attr>`, returned, or handed to a logger.
 from __future__ import annotations
 
 import ast
+import re
 from pathlib import Path
 
 from .pyq import TranslateError, strip_doc
@@ -760,25 +761,213 @@ def extract(src: Path) -> dict:
                         "variants": [{"assume": a, **fr} for a, fr in vs]})
     if not classes:
         raise TranslateError("no trainable classes found")
-    return {"classes": classes, "abstract": abstract, "pipeline": pipeline_shape(src), "options_passthrough": options_generator_shape(src)}
+    return {"classes": classes, "abstract": abstract, "pipeline": pipeline_shape(src), "options_passthrough": options_generator_shape(src),
+            "outside": outside_state(src, idx)}
+
+
+# ---------------------------------------------------------------------------------------------
+# state OUTSIDE the components: what a training could leave behind in the process
+# ---------------------------------------------------------------------------------------------
+# The frames above describe the instance dictionary.  A training could also remember something elsewhere: in a
+# module-level (or class-level) table, behind a memoising decorator, in a default argument, in a table keyed by the
+# identity (`id()`) of an object whose address is recycled once it has been dropped.  Such state survives the dataset it
+# stems from and every retraining.  The scan covers every module that is import-reachable from a module defining a
+# trainable class, from pipeline/_impl.py and from training.py (imports inside functions and under TYPE_CHECKING
+# included), and reports
+#   * a function carrying a memoising decorator (functools.cache / lru_cache / cached_property, cachetools, memoize ...);
+#   * a call of the builtin id();
+#   * a module-level name assigned through `global` inside a function;
+#   * a module-level or class-level container (display, comprehension, dict / list / set / deque / Counter / *Dict / *Cache
+#     constructor) that a function of the module writes (subscript store / delete, mutating method);
+#   * a container-valued default argument that the function writes.
+# PROCESS_STATE_ALLOWED lists, by module and name, the process-wide state of the unchanged tree that is configuration or
+# display bookkeeping and never data a model is computed from; everything else goes to `outside_state`, which the
+# theorems need empty.
+
+CACHE_DECO = re.compile(r"(^|\.)(lru_cache|cache|cached_property|cachedmethod|cached|memoize|memoized|memo)$", re.I)
+MUTATORS = {"append", "extend", "insert", "add", "update", "setdefault", "pop", "popitem", "clear", "remove", "discard",
+            "appendleft", "extendleft", "__setitem__", "__delitem__"}
+CONTAINER = re.compile(r"(dict|Dict|list|List|^set$|Set$|deque|Counter|Cache|ChainMap)")
+PROCESS_STATE_ALLOWED = {
+    "lenskit/logging/": "logging, progress-bar and task bookkeeping: display state, never read by a training",
+    "lenskit/parallel/config.py:_config": "process-wide thread / process counts, initialised once from the environment",
+    "lenskit/parallel/invoker.py:_backend": "which parallel backend is in use (set_backend)",
+    "lenskit/parallel/ray.py:_worker_parallel": "parallel configuration of Ray workers",
+    "lenskit/parallel/worker.py:__work_context": "context of a pool worker process, set when the worker starts",
+    "lenskit/random.py:_global_rng": "the global generator; only set_global_rng assigns it, no training does",
+    "lenskit/data/collection/_keys.py:KEY_CACHE": "named-tuple classes for list keys, keyed by the tuple of field names (content, not identity)",
+}
+
+
+def _is_container(v) -> str | None:
+    if isinstance(v, (ast.Dict, ast.List, ast.Set, ast.DictComp, ast.ListComp, ast.SetComp)):
+        return type(v).__name__
+    if isinstance(v, ast.Call):
+        n = deco_name(v.func)
+        if n and CONTAINER.search(n.split(".")[-1]):
+            return n
+    return None
+
+
+def _modfile(src: Path, dotted: str) -> Path | None:
+    p = src / Path(*dotted.split("."))
+    if p.with_suffix(".py").exists():
+        return p.with_suffix(".py")
+    if (p / "__init__.py").exists():
+        return p / "__init__.py"
+    return None
+
+
+def _imports_of(src: Path, f: Path) -> set[Path]:
+    tree = ast.parse(f.read_text(), filename=str(f))
+    pkg = list(f.relative_to(src).with_suffix("").parts[:-1])
+    out = set()
+
+    def add(dotted):
+        parts = dotted.split(".")
+        for k in range(1, len(parts) + 1):
+            m = _modfile(src, ".".join(parts[:k]))
+            if m:
+                out.add(m)
+    for n in ast.walk(tree):
+        if isinstance(n, ast.Import):
+            for a in n.names:
+                if a.name.split(".")[0] == "lenskit":
+                    add(a.name)
+        elif isinstance(n, ast.ImportFrom):
+            if n.level:
+                dotted = ".".join(pkg[: len(pkg) - (n.level - 1)] + (n.module.split(".") if n.module else []))
+            else:
+                dotted = n.module or ""
+            if dotted.split(".")[0] != "lenskit":
+                continue
+            add(dotted)
+            for a in n.names:
+                add(dotted + "." + a.name)
+    return out
+
+
+def _bindings(body):
+    for st in body:
+        if isinstance(st, ast.Assign):
+            for t in st.targets:
+                yield t, st.value
+        elif isinstance(st, ast.AnnAssign) and st.value is not None:
+            yield st.target, st.value
+
+
+def _functions(node, prefix=""):
+    for ch in ast.iter_child_nodes(node):
+        if isinstance(ch, (ast.FunctionDef, ast.AsyncFunctionDef)):
+            yield prefix + ch.name, ch
+            yield from _functions(ch, prefix + ch.name + ".")
+        elif isinstance(ch, ast.ClassDef):
+            yield from _functions(ch, prefix + ch.name + ".")
+        elif not isinstance(ch, ast.expr):
+            yield from _functions(ch, prefix)
+
+
+def _scan_module(src: Path, f: Path) -> list[tuple[str, str]]:
+    """(key `module:name`, description) of everything in this module that can hold state between calls."""
+    rel = str(f.relative_to(src))
+    tree = ast.parse(f.read_text(), filename=str(f))
+    out = []
+    modvars, clsvars = {}, {}
+    for t, v in _bindings(tree.body):
+        if isinstance(t, ast.Name) and _is_container(v):
+            modvars[t.id] = _is_container(v)
+    for st in ast.walk(tree):
+        if isinstance(st, ast.ClassDef):
+            for t, v in _bindings(st.body):
+                if isinstance(t, ast.Name) and _is_container(v):
+                    clsvars[t.id] = (st.name, _is_container(v))
+    for name, fn in _functions(tree):
+        for d in fn.decorator_list:
+            dn = deco_name(d)
+            if dn and CACHE_DECO.search(dn):
+                out.append((f"{rel}:{name}", f"memoising decorator @{dn}"))
+        nodes = [x for st in fn.body for x in ast.walk(st)]
+        globs = set().union(*[set(x.names) for x in nodes if isinstance(x, ast.Global)] or [set()])
+        for x in nodes:
+            if isinstance(x, ast.Call) and isinstance(x.func, ast.Name) and x.func.id == "id" and len(x.args) == 1 and not x.keywords:
+                out.append((f"{rel}:{name}", "takes the identity of an object with id()"))
+            if isinstance(x, ast.Name) and isinstance(x.ctx, ast.Store) and x.id in globs:
+                out.append((f"{rel}:{x.id}", f"module-level name assigned through `global` in {name}"))
+            b = how = None
+            if isinstance(x, ast.Subscript) and isinstance(x.ctx, (ast.Store, ast.Del)):
+                b, how = x.value, "written"
+            elif isinstance(x, ast.Call) and isinstance(x.func, ast.Attribute) and x.func.attr in MUTATORS:
+                b, how = x.func.value, f"changed by .{x.func.attr}()"
+            if isinstance(b, ast.Name) and b.id in modvars:
+                out.append((f"{rel}:{b.id}", f"module-level {modvars[b.id]} {how} in {name}"))
+            elif isinstance(b, ast.Attribute) and b.attr in clsvars:
+                out.append((f"{rel}:{clsvars[b.attr][0]}.{b.attr}", f"class-level {clsvars[b.attr][1]} {how} in {name}"))
+        a = fn.args
+        pos = a.posonlyargs + a.args
+        defaults = list(zip(pos[len(pos) - len(a.defaults):], a.defaults)) + [(p, d) for p, d in zip(a.kwonlyargs, a.kw_defaults) if d is not None]
+        for prm, d in defaults:
+            if not _is_container(d):
+                continue
+            for x in nodes:
+                tgt = x.value if isinstance(x, ast.Subscript) and isinstance(x.ctx, (ast.Store, ast.Del)) else (
+                    x.func.value if isinstance(x, ast.Call) and isinstance(x.func, ast.Attribute) and x.func.attr in MUTATORS else None)
+                if isinstance(tgt, ast.Name) and tgt.id == prm.arg:
+                    out.append((f"{rel}:{name}", f"default argument {prm.arg} ({_is_container(d)}) written by the function"))
+                    break
+    return sorted(set(out))
+
+
+def outside_state(src: Path, idx) -> dict:
+    roots = {src / c.module for c in trainable_classes(idx)} | {src / "lenskit" / "pipeline" / "_impl.py", src / "lenskit" / "training.py"}
+    seen, todo = set(), list(roots)
+    while todo:
+        f = todo.pop()
+        if f in seen or not f.exists():
+            continue
+        seen.add(f)
+        todo.extend(_imports_of(src, f) - seen)
+    flagged, allowed = [], []
+    for f in sorted(seen):
+        if str(f.relative_to(src)).startswith("lenskit/testing/"):
+            continue
+        for key, what in _scan_module(src, f):
+            ok = any(key == k or (k.endswith("/") and key.startswith(k)) for k in PROCESS_STATE_ALLOWED)
+            (allowed if ok else flagged).append(f"{key}: {what}")
+    return {"flagged": flagged, "allowed": allowed, "modules": len(seen)}
 
 
 # ---------------------------------------------------------------------------------------------
 # Pipeline.train
 # ---------------------------------------------------------------------------------------------
 
-KINDS = ["KNone", "KGenerator", "KBitGenerator", "KSeedSequence", "KSeedLike"]
+# KSeedZero: a supplied seed that is false in a truth test (the number zero as int or numpy integer).  Seeds are values:
+# a test by VALUE (`not rng`, `if rng`, `rng == 0`) splits the seed-like inputs, and the model follows the split.
+KINDS = ["KNone", "KGenerator", "KBitGenerator", "KSeedSequence", "KSeedLike", "KSeedZero"]
+FALSY_KINDS = {"KNone", "KSeedZero"}      # generators, bit generators and SeedSequence objects are always true; a sequence of
+#                                          numbers given as a seed is assumed non-empty
 
 
-def _rng_test_kinds(t) -> set[str]:
+def _is_rng(n, alias: set[str]) -> bool:
+    return ast.unparse(n) == "options.rng" or (isinstance(n, ast.Name) and n.id in alias)
+
+
+def _rng_test_kinds(t, alias: set[str] = frozenset()) -> set[str]:
     """kinds of options.rng for which the test holds"""
-    if isinstance(t, ast.BoolOp) and isinstance(t.op, ast.Or):
-        return set().union(*[_rng_test_kinds(v) for v in t.values])
-    if (isinstance(t, ast.Compare) and len(t.ops) == 1 and isinstance(t.ops[0], ast.Is)
-            and ast.unparse(t.left) == "options.rng" and isinstance(t.comparators[0], ast.Constant) and t.comparators[0].value is None):
-        return {"KNone"}
+    if isinstance(t, ast.BoolOp):
+        parts = [_rng_test_kinds(v, alias) for v in t.values]
+        return set.union(*parts) if isinstance(t.op, ast.Or) else set.intersection(*parts)
+    if isinstance(t, ast.UnaryOp) and isinstance(t.op, ast.Not):
+        return set(KINDS) - _rng_test_kinds(t.operand, alias)
+    if _is_rng(t, alias):                                    # truth value of the seed itself
+        return set(KINDS) - FALSY_KINDS
+    if isinstance(t, ast.Compare) and len(t.ops) == 1 and _is_rng(t.left, alias) and isinstance(t.comparators[0], ast.Constant):
+        op, c = t.ops[0], t.comparators[0].value
+        if c is None and isinstance(op, (ast.Is, ast.IsNot)):
+            return {"KNone"} if isinstance(op, ast.Is) else set(KINDS) - {"KNone"}
+        if type(c) is int and c == 0 and isinstance(op, (ast.Eq, ast.NotEq)):
+            return {"KSeedZero"} if isinstance(op, ast.Eq) else set(KINDS) - {"KSeedZero"}
     if (isinstance(t, ast.Call) and isinstance(t.func, ast.Name) and t.func.id == "isinstance" and len(t.args) == 2
-            and ast.unparse(t.args[0]) == "options.rng"):
+            and _is_rng(t.args[0], alias)):
         names = [e.id for e in (t.args[1].elts if isinstance(t.args[1], ast.Tuple) else [t.args[1]]) if isinstance(e, ast.Name)]
         m = {"SeedSequence": "KSeedSequence", "Generator": "KGenerator", "BitGenerator": "KBitGenerator"}
         if names and all(x in m for x in names):
@@ -786,16 +975,17 @@ def _rng_test_kinds(t) -> set[str]:
     fail(t, f"Pipeline.train: unrecognised test on options.rng: {ast.unparse(t)}")
 
 
-def _seed_plan(stmts) -> str:
+def _seed_plan(stmts, alias: set[str] = frozenset()) -> str:
     if len(stmts) == 1 and isinstance(stmts[0], ast.Assign) and len(stmts[0].targets) == 1 and ast.unparse(stmts[0].targets[0]) == "seed":
-        v = ast.unparse(stmts[0].value)
-        if v == "options.rng":
+        v = stmts[0].value
+        if _is_rng(v, alias):
             return "PlanUseGiven"
-        if v == "None":
+        if ast.unparse(v) == "None":
             return "PlanNoSeed"
-        if v == "SeedSequence(options.rng)":
+        if (isinstance(v, ast.Call) and ast.unparse(v.func) == "SeedSequence" and len(v.args) == 1 and not v.keywords
+                and _is_rng(v.args[0], alias)):
             return "PlanWrap"
-    fail(stmts[0], "Pipeline.train: unrecognised seed assignment")
+    fail(stmts[0] if stmts else None, "Pipeline.train: unrecognised seed assignment")
 
 
 def pipeline_shape(src: Path) -> dict:
@@ -808,21 +998,27 @@ def pipeline_shape(src: Path) -> dict:
         raise TranslateError("Pipeline.train not found exactly once")
     fn = fns[0]
     body = strip_doc(fn.body)
+    # local names for options.rng (`rng = options.rng`, assigned once, after `options` has its final value)
+    alias = {s.targets[0].id for s in body if isinstance(s, ast.Assign) and len(s.targets) == 1 and isinstance(s.targets[0], ast.Name)
+             and ast.unparse(s.value) == "options.rng"}
+    for a in alias:
+        if sum(1 for x in ast.walk(fn) if isinstance(x, ast.Name) and x.id == a and isinstance(x.ctx, (ast.Store, ast.Del))) != 1:
+            raise TranslateError(f"Pipeline.train: {a} (a name for options.rng) is assigned more than once")
     # seed selection: the if/elif/else chain on options.rng
-    chain = [s for s in body if isinstance(s, ast.If) and "options.rng" in ast.unparse(s.test)]
+    chain = [s for s in body if isinstance(s, ast.If) and any(_is_rng(x, alias) for x in ast.walk(s.test))]
     if len(chain) != 1:
         raise TranslateError("Pipeline.train: expected exactly one if-chain on options.rng")
     plan, remaining, node = {}, set(KINDS), chain[0]
     while True:
-        ks = _rng_test_kinds(node.test) & remaining
-        p = _seed_plan(node.body)
+        ks = _rng_test_kinds(node.test, alias) & remaining
+        p = _seed_plan(node.body, alias)
         for k in ks:
             plan[k] = p
         remaining -= ks
         if len(node.orelse) == 1 and isinstance(node.orelse[0], ast.If):
             node = node.orelse[0]
             continue
-        p = _seed_plan(node.orelse) if node.orelse else fail(node, "Pipeline.train: seed chain without else")
+        p = _seed_plan(node.orelse, alias) if node.orelse else fail(node, "Pipeline.train: seed chain without else")
         for k in remaining:
             plan[k] = p
         break
@@ -937,6 +1133,15 @@ def to_gallina(info: dict) -> str:
     out.append("(* TrainingOptions.random_generator is `return random_generator(self.rng)`: the generator a component obtains is\n"
                "   made from exactly the rng it was handed *)\n")
     out.append(f"Definition options_rng_passthrough : bool := {'true' if info['options_passthrough'] else 'false'}.\n")
+    o = info["outside"]
+    out.append(f"\n(* state OUTSIDE the components, scanned over the {o['modules']} modules import-reachable from the trainable classes, from\n"
+               "   Pipeline.train and from training.py: memoising decorators, id() calls, module-level names assigned through `global`,\n"
+               "   module- / class-level containers and container defaults written by functions.  `outside_state` is what is NOT on the\n"
+               "   list of process-wide configuration / display state (harness/translate/c18.py: PROCESS_STATE_ALLOWED). *)\n")
+    out.append("Definition outside_state : list String.string := " + cl(o["flagged"]) + ".\n")
+    out.append("Definition process_state_allowed : list String.string := [\n  " + ";\n  ".join(cs(x) for x in o["allowed"]) + "\n].\n")
+    out.append("(* does a training remember anything outside the instance dictionary of the component? *)\n")
+    out.append("Definition train_keeps_outside : bool := negb (is_nil outside_state).\n")
     return "".join(out)
 
 
